@@ -249,6 +249,32 @@ def desugar_let_chains(body, drops, fn_disp):
             body = body[:s] + new + body[c + 1:]
 
 
+def desugar_for_vec_refs(body, drops, fn_disp):
+    """rule 5: `for x in &V { BODY }` (V an identifier naming a Vec/slice, no `continue` in BODY) ->
+    `{ let mut for_idx_k = 0; while for_idx_k < V.len() { let x = &V[for_idx_k]; BODY for_idx_k += 1; } }`
+    (std: iterating `&Vec<T>` yields `&V[0], &V[1], ..` in order); lets loop invariants talk about the position"""
+    count = 0
+    while True:
+        masked = rsrc.mask(body)
+        found = None
+        for m in re.finditer(r"\bfor\s+([A-Za-z_]\w*)\s+in\s+&\s*([A-Za-z_]\w*)\s*\{", masked):
+            o = m.end() - 1
+            c = rsrc.match_close(masked, o)
+            if re.search(r"\bcontinue\b", masked[o:c]):
+                continue
+            found = (m, o, c)
+            break
+        if not found:
+            return body
+        m, o, c = found
+        count += 1
+        var, vec = m.group(1), m.group(2)
+        new = "{ let mut for_idx_%d: usize = 0; while for_idx_%d < %s.len() { let %s = &%s[for_idx_%d];%s for_idx_%d += 1; } }" % (
+            count, count, vec, var, vec, count, body[o + 1:c], count)
+        drops.append("%s: `for %s in &%s` desugared to an index loop (rule 5)" % (fn_disp, var, vec))
+        body = body[:m.start()] + new + body[c + 1:]
+
+
 def desugar_ref_patterns(body, drops, fn_disp):
     """rule 4: `let Some(&x) = E else { B };` -> `let Some(x_ref_) = E else { B }; let x = *x_ref_;`
     (Verus does not support reference patterns; `&x` against a `&T: Copy` scrutinee is exactly a deref-copy)"""
@@ -628,6 +654,7 @@ def expand(template_path, tree):
             body = desugar_let_chains(body, gen.drops, fn_disp)
             body = desugar_for_ranges(body, gen.drops, fn_disp)
             body = desugar_ref_patterns(body, gen.drops, fn_disp)
+            body = desugar_for_vec_refs(body, gen.drops, fn_disp)
             body = _insert_proofs(body, ex, fn_disp)
             body = _apply_subst(body, ex, gen, fn_disp)
             outlines_seen.update(ex.matched)
